@@ -150,3 +150,27 @@ Theorem C03_executed_dualproj_is_the_real_model : forall qpQ qpR,
   = match agg_dualproj QN qpQ pref s norm_eps reg_eps J with Ok v => Ok (map Q2R v) | Err e => Err e end.
 Proof. exact agg_dualproj_Q_to_R. Qed.
 Print Assumptions C03_executed_dualproj_is_the_real_model.
+
+(* ---- the premise `nltb RN s ne = false` of the theorems above is exactly "s >= norm_eps", EQUALITY INCLUDED:
+   a matrix whose largest singular value equals norm_eps is projected, not averaged (the harness runs the
+   implementation on matrices whose sigma_max is returned exactly by the SVD, aggrun.exact_boundary) ---- *)
+Theorem C03_threshold_is_inclusive : forall s ne : R,
+  (nltb RN s ne = false <-> (ne <= s)%R) /\ nltb RN s s = false.
+Proof.
+  intros s ne. split.
+  - exact (Rltb_false s ne).
+  - apply (proj2 (Rltb_false s s)). apply Rle_refl.
+Qed.
+Print Assumptions C03_threshold_is_inclusive.
+Theorem C03_dualproj_at_the_threshold : forall n J s re pref qp,
+  wfmat n J -> (0 < s)%R -> (0 < re)%R -> pref_ok pref (length J) ->
+  let m := length J in let u := pref_u pref m in
+  let M := reg_norm_gramian RN (gramR J) s s re in
+  is_min m M u (qp M u) ->
+  agg_dualproj RN qp pref s s re J = Ok (combineR J (qp M u)).
+Proof.
+  intros n J s re pref qp HJ Hs Hre Hp m u M Hq.
+  apply (C03_dualproj n J s s re pref qp); try assumption.
+  apply (proj2 (Rltb_false s s)). apply Rle_refl.
+Qed.
+Print Assumptions C03_dualproj_at_the_threshold.
